@@ -24,13 +24,14 @@ import (
 type transOracle func(r *Rec) eng.Res
 
 type checkDef struct {
-	ID         string
-	Oracle     transOracle
-	Deltas     bool // run the *IDDeltas predictor on every transition
-	BoardsOnly bool // restrict seeds to those with nested boards (C41)
-	Rule       string
-	Assume     []string
-	Extra      func(p *eng.Solo, cov map[string]any, deadline time.Time) bool // additional (non-BFS) phase; returns complete
+	ID           string
+	Oracle       transOracle
+	Deltas       bool // run the *IDDeltas predictor on every transition
+	BoardsOnly   bool // restrict seeds to those with nested boards (C41)
+	Rule         string
+	Assume       []string
+	ExtraOracles map[string]eng.Oracle
+	Extra        func(p *eng.Solo, cov map[string]any, deadline time.Time) bool // additional (non-BFS) phase; returns complete
 }
 
 var defs = map[string]*checkDef{}
@@ -39,17 +40,18 @@ var oracles = map[string]transOracle{}
 // plan = menu level per depth and which seeds take part, per tier.
 type level struct {
 	menu     menuLevel
-	maxSeedB int // only states descending from seeds of at most this many bytes (0 = all)
+	miniOnly bool // expand only states whose whole history consists of mini-menu edits
+	maxSeedB int  // only states descending from seeds of at most this many bytes (0 = all)
 }
 
 func plan(thorough bool) []level {
 	if thorough {
-		return []level{{menuFull, 0}, {menuFull, 0}, {menuCore, 60}}
+		return []level{{menuFull, false, 0}, {menuFull, false, 0}, {menuMini, true, 60}}
 	}
-	return []level{{menuFull, 0}, {menuCore, 0}}
+	return []level{{menuFull, false, 0}, {menuMini, true, 0}}
 }
 
-const hangBound = 90 * time.Second
+const hangBound = 30 * time.Second
 
 // ---- worker (child process) ---------------------------------------------------------------------------
 
@@ -68,6 +70,7 @@ type wRes struct {
 	Done   bool   `json:"done,omitempty"` // trailer line
 	J      int    `json:"j"`
 	Op     *Op    `json:"op,omitempty"`
+	Mini   bool   `json:"mini,omitempty"`
 	Ok     bool   `json:"ok,omitempty"`   // edit succeeded
 	Post   string `json:"post,omitempty"` // successor text (only when it compiles and differs from the state)
 	Noop   bool   `json:"noop,omitempty"`
@@ -123,12 +126,16 @@ func init() {
 			enc.Encode(wRes{I: rq.I, Hdr: true, N: len(ops)})
 			out.Flush()
 			for j := rq.Start; j < len(ops); j++ {
-				op := ops[j]
+				op := ops[j].Op
 				curDesc.Store(op.String())
 				cur.Store(time.Now().UnixNano())
+				t0 := time.Now()
 				res := evalTransition(def, rq.Text, rq.Files, op)
 				cur.Store(0)
-				res.I, res.J, res.Op = rq.I, j, &ops[j]
+				if os.Getenv("VERIF_EDIT_TIMING") != "" {
+					fmt.Fprintf(os.Stderr, "%8d us %s\n", time.Since(t0).Microseconds(), op)
+				}
+				res.I, res.J, res.Op, res.Mini = rq.I, j, &ops[j].Op, ops[j].Mini
 				enc.Encode(res)
 				out.Flush()
 			}
@@ -206,6 +213,7 @@ type state struct {
 	parent int // index into all states, -1 for seeds
 	via    Op
 	depth  int
+	mini   bool // reached by mini-menu edits only
 }
 
 type proc struct {
@@ -218,6 +226,8 @@ type proc struct {
 func startProc(id string) (*proc, error) {
 	self, _ := os.Executable()
 	cmd := exec.Command(self, "edit-worker", id)
+	// the worker is sequential; many runtime threads per process only cost futex traffic on a busy machine
+	cmd.Env = append(os.Environ(), "GOMAXPROCS=2", "GOGC=200")
 	in, _ := cmd.StdinPipe()
 	outp, _ := cmd.StdoutPipe()
 	var sb strings.Builder
@@ -374,7 +384,7 @@ func runBFS(p *eng.Solo, def *checkDef) {
 			p.HarnessErr = fmt.Sprintf("seed %s does not compile: %v", s.Name, err)
 			return
 		}
-		st := &state{text: s.Text, files: s.Files, seed: si, parent: -1}
+		st := &state{text: s.Text, files: s.Files, seed: si, parent: -1, mini: true}
 		seen[key(si, s.Text)] = len(all)
 		all = append(all, st)
 		frontier = append(frontier, st)
@@ -393,18 +403,18 @@ func runBFS(p *eng.Solo, def *checkDef) {
 
 	for d := 1; d <= len(lv); d++ {
 		L := lv[d-1]
-		if L.maxSeedB > 0 {
+		if L.maxSeedB > 0 || L.miniOnly {
 			var f2 []*state
 			var i2 []int
 			for k, st := range frontier {
-				if len(Seeds[st.seed].Text) <= L.maxSeedB && Seeds[st.seed].Files == nil {
+				if (L.maxSeedB == 0 || (len(Seeds[st.seed].Text) <= L.maxSeedB && Seeds[st.seed].Files == nil)) && (!L.miniOnly || st.mini) {
 					f2 = append(f2, st)
 					i2 = append(i2, frontierIdx[k])
 				}
 			}
 			frontier, frontierIdx = f2, i2
 		}
-		name := fmt.Sprintf("depth<=%d(menu=%s,states=%d)", d, map[menuLevel]string{menuCore: "core", menuFull: "full"}[L.menu], len(frontier))
+		name := fmt.Sprintf("depth<=%d(menu=%s,states=%d)", d, map[menuLevel]string{menuMini: "mini", menuFull: "full"}[L.menu], len(frontier))
 		if p.Expired() {
 			phases = append(phases, map[string]any{"phase": name, "complete": false, "evaluations": 0})
 			exhaustive = false
@@ -475,7 +485,7 @@ func runBFS(p *eng.Solo, def *checkDef) {
 					if _, dup := seen[kk]; dup {
 						cnt["successors_already_seen"]++
 					} else {
-						ns := &state{text: r.Post, files: st.files, seed: st.seed, parent: frontierIdx[k], via: *r.Op, depth: d}
+						ns := &state{text: r.Post, files: st.files, seed: st.seed, parent: frontierIdx[k], via: *r.Op, depth: d, mini: st.mini && r.Mini}
 						seen[kk] = len(all)
 						all = append(all, ns)
 						nextF = append(nextF, ns)
@@ -547,10 +557,14 @@ func topN(m map[string]int64, n int) []string {
 func register(def *checkDef) {
 	defs[def.ID] = def
 	oracles[def.ID] = def.Oracle
+	ors := map[string]eng.Oracle{"edit": replayOracle(def)}
+	for k, v := range def.ExtraOracles {
+		ors[k] = v
+	}
 	eng.Register(&eng.Check{
 		ID: def.ID, Level: "model_checking", Rule: def.Rule, Assumptions: def.Assume,
 		QuickBudget: 100 * time.Second, ThoroughBudget: 24 * time.Minute,
-		Oracles: map[string]eng.Oracle{"edit": replayOracle(def)},
+		Oracles: ors,
 		Solo:    func(p *eng.Solo) { runBFS(p, def) },
 	})
 }
